@@ -471,10 +471,13 @@ class Simulator:
             0.0 if (variables := self.variables) is None else variables[-1].index[-1]
         )
 
+        # Same arithmetic as simulate_protocol and as the relative time points below:
+        # going through pd.Timedelta would round t_start to nanoseconds, such that a
+        # time point on a step boundary becomes a second point a few ulp next to it
         protocol = protocol.copy()
         protocol.index = (
-            cast(pd.TimedeltaIndex, protocol.index) + pd.Timedelta(t_start, unit="s")
-        ).total_seconds()
+            cast(pd.TimedeltaIndex, protocol.index).total_seconds() + t_start
+        )
 
         time_points = np.array(time_points, dtype=float)
         if time_points_as_relative:
